@@ -209,6 +209,18 @@ pub trait TPair {
     fn left(&self) -> &Self::K;
 }
 impl TPair for Pair { type K = Kid2; fn right(&self) -> &Kid2 { &self.right } fn left(&self) -> &Kid2 { &self.left } }
+/// a USER trait that merely shares its name with a builtin external trait, reached through a
+/// relative path
+pub mod units {
+    use cglue::*;
+    #[cglue_trait]
+    pub trait Display { fn show(&self, a: u64) -> u64; fn show_mut(&mut self, a: u64) -> u64; }
+}
+impl units::Display for Imp {
+    fn show(&self, a: u64) -> u64 { self.step(90, 3, a) }
+    fn show_mut(&mut self, a: u64) -> u64 { self.id = self.id.wrapping_add(5); self.step(91, 5, a) }
+}
+impl core::fmt::Display for Imp { fn fmt(&self, f: &mut core::fmt::Formatter) -> core::fmt::Result { f.write_str("imp") } }
 /// builtin external trait
 impl AsRef<u64> for Imp { fn as_ref(&self) -> &u64 { let _ = self.step(60, 47, 0); &self.id } }
 
